@@ -94,6 +94,57 @@ def run (kv : List (String × String)) : IO Res := do
       let img ← IO.FS.readBinFile (v.drop 1).toString
       return check kv true img
     catch _ => return .bad "file unreadable"
+  | some "proc" =>
+    -- the image as a live target holds it in memory, rebuilt from the file and the mapping layout
+    let some v := get kv "file" | return .bad "file"
+    let some start := getNat kv "start" | return .bad "start"
+    let some layout := get kv "layout" | return .bad "layout"
+    let some implB := get kv "buildid" | return .bad "buildid"
+    let some implS := get kv "soname" | return .bad "soname"
+    let some fB := get kv "fbuildid" | return .bad "fbuildid"
+    let some fS := get kv "fsoname" | return .bad "fsoname"
+    let file ← try IO.FS.readBinFile (v.drop 1).toString catch _ => return .bad "file unreadable"
+    let mut img := ByteArray.empty
+    for seg in layout.splitOn "," do
+      match seg.splitOn ":" with
+      | [offS, npS, prot] =>
+        if offS == "g" then break
+        let off := (if offS.startsWith "0x" then (offS.drop 2).toString.toList.foldl (fun a c => a * 16 + (if c.isDigit then c.toNat - 48 else c.toNat - 87)) 0 else offS.toNat?.getD 0)
+        let np := npS.toNat?.getD 0
+        if prot == "n" then break
+        if off ≥ file.size then break
+        let avail := file.size - off
+        let take := min (np * 4096) (((avail + 4095) / 4096) * 4096)
+        let chunk := file.extract off (off + min take avail)
+        img := img ++ chunk
+        for _ in [0 : take - chunk.size] do img := img.push 0
+        if take < np * 4096 then break
+      | _ => break
+    let blob := (Blob.ofByteArray img).asProcess start
+    let (mb, hdr) := readBuildIdFull blob
+    let (ms, _) := readSoNameFull blob
+    let mut tags : List String := ["kind.proc", s!"layout.{(layout.splitOn ",").length}"]
+    tags := (match mb with | .ok f => s!"proc.buildid.{f.via}" | .error _ => "proc.buildid.err") :: tags
+    tags := (match ms with | .ok f => s!"proc.soname.{f.via}" | .error _ => "proc.soname.err") :: tags
+    if implB == "panic" || implS == "panic" then return .propfail "reading a module from process memory panicked" tags
+    -- the property: memory and file give the same answers when the image is loaded at matching offsets
+    if get kv "consistent" == some "1" then
+      tags := "proc.consistent" :: tags
+      if implB != fB then return .propfail s!"build id from memory ({implB.take 60}) ≠ from the file ({fB.take 60})" tags
+      if implS != fS then return .propfail s!"SONAME from memory ({implS.take 60}) ≠ from the file ({fS.take 60})" tags
+    let rb := render mb
+    let rs := render ms
+    if rb != implB then return .mismatch s!"process-mode buildid: model={rb.take 80} impl={implB.take 80}" tags
+    if rs != implS then return .mismatch s!"process-mode soname: model={rs.take 80} impl={implS.take 80}" tags
+    -- and the file side once more
+    let (fb, _) := readBuildIdFull (Blob.ofByteArray file)
+    let (fs, _) := readSoNameFull (Blob.ofByteArray file)
+    if render fb != fB then return .mismatch s!"file buildid: model={(render fb).take 80} impl={fB.take 80}" tags
+    if render fs != fS then return .mismatch s!"file soname: model={(render fs).take 80} impl={fS.take 80}" tags
+    let cls := match hdr with
+      | some h => (if h.ctx.is64 then "64" else "32") ++ (if h.ctx.be then "be" else "le")
+      | none => "-"
+    return .ok tags (some s!"proc/{cls}/{layout}/{tags}")
   | _ => return .bad "C14 kind"
 
 end Mdw.Drv.C14
